@@ -359,7 +359,7 @@ end
 
 def normalise (d : Doc) : Doc :=
   { name := some (d.name.getD [70, 83, 77])
-    datamodel := some (d.datamodel.getD [110, 117, 108, 108])
+    datamodel := some (d.datamodel.getD [78, 85, 76, 76])
     binding := some (d.binding.getD false)
     version := some (d.version.getD [49, 46, 48])
     script := d.script.map fun s => trim s
@@ -381,6 +381,43 @@ def dSend (p : SendP) : SendT :=
     id := p.name, idlocation := p.nameLocation, delayMs := p.delayMs, delayexpr := dData p.delayExpr
     namelist := p.nameList, params := dParams p.params, content := p.content.map dContentT }
 
+/-- `mapM` for `Option` -/
+def mapO {α β} (f : α → Option β) : List α → Option (List β)
+  | [] => some []
+  | x :: xs =>
+    match f x, mapO f xs with
+    | some y, some ys => some (y :: ys)
+    | _, _ => none
+
+/-- content entries without sub-regions -/
+def dLeaf : Exec → Option Content
+  | .expression d => (dData d).map Content.script
+  | .log l d => (dData d).map fun e => Content.log l (some e)
+  | .send p => some (Content.send (dSend p))
+  | .raise ev => some (Content.raise ev)
+  | .cancel i d => some (Content.cancel (if d = .none then some i else none) (dData d))
+  | .assign l e =>
+    match dData l with
+    | some l => some (Content.assign l (dData e) none)
+    | none => none
+  | _ => none
+
+/-- one entry; `sub` decompiles a sub-region -/
+def dEntry (sub : Nat → Option Block) : Exec → Option Content
+  | .ifE c ct el =>
+    match dData c, sub ct with
+    | some c, some b =>
+      if el = 0 then some (Content.ite c b .none)
+      else match sub el with
+        | some eb => some (Content.ite c b (.els eb))
+        | none => none
+    | _, _ => none
+  | .foreach a i x ct =>
+    match dData a, sub ct with
+    | some a, some b => some (Content.foreach a i x b)
+    | _, _ => none
+  | e => dLeaf e
+
 /-- a content region as a block; `fuel` bounds the nesting depth (regions could be cyclic in an
 arbitrary table) -/
 def dBlock : Nat → Regions → Nat → Option Block
@@ -388,33 +425,15 @@ def dBlock : Nat → Regions → Nat → Option Block
   | fuel + 1, g, rid =>
     match rget g rid with
     | none => none
-    | some es =>
-      es.mapM fun e =>
-        match e with
-        | .ifE c ct el =>
-          match dData c, dBlock fuel g ct with
-          | some c, some b =>
-            if el = 0 then some (Content.ite c b .none)
-            else match dBlock fuel g el with
-              | some eb => some (Content.ite c b (.els eb))
-              | none => none
-          | _, _ => none
-        | .expression d => (dData d).map Content.script
-        | .script _ => none
-        | .log l d => (dData d).map fun e => Content.log l (some e)
-        | .foreach a i x ct =>
-          match dData a, dBlock fuel g ct with
-          | some a, some b => some (Content.foreach a i x b)
-          | _, _ => none
-        | .send p => some (Content.send (dSend p))
-        | .raise ev => some (Content.raise ev)
-        | .cancel i d => some (Content.cancel (if d = .none then some i else none) (dData d))
-        | .assign l e =>
-          match dData l with
-          | some l => some (Content.assign l (dData e) none)
-          | none => none
+    | some es => mapO (dEntry (dBlock fuel g)) es
 
-def regionFuel (f : Fsm) : Nat := f.regions.length + 1
+def maxKey : Regions → Nat
+  | [] => 0
+  | (k, _) :: r => max k (maxKey r)
+
+/-- enough for every acyclic table: the nesting depth is at most the number of regions, the keys are
+distinct, so their number is at most the largest key + 1 -/
+def regionFuel (f : Fsm) : Nat := maxKey f.regions + 2
 
 def dOptBlock (f : Fsm) (rid : Nat) : Option Block :=
   if rid = 0 then some [] else dBlock (regionFuel f) f.regions rid
